@@ -284,6 +284,39 @@ func (env *Env) eval(e Expr) SVal {
 		return SVal{T: fmt.Sprintf("(%s (%s) %s)", q, strings.Join(binders, " "), bt), Typ: tBool, Sort: "Bool"}
 	case *ECall:
 		return env.call(x)
+	case *EStruct:
+		t, _ := env.resolveType(x.Type)
+		if t == nil || !isStructType(t) {
+			fail("struct literal of non-struct type %s", x.Type)
+		}
+		si := d.structInfo(t)
+		args := make([]Term, len(si.Fields))
+		for i, f := range si.Fields {
+			args[i] = d.Zero(f.Type)
+		}
+		for k, n := range x.Names {
+			found := false
+			for i, f := range si.Fields {
+				if f.Name == n {
+					v := env.value(env.eval(x.Values[k]))
+					if v.IsNil {
+						v = nilOf(SVal{Sort: d.SortOf(f.Type)})
+					}
+					if v.Sort == "Int" && d.SortOf(f.Type) == "Real" {
+						v.T = toReal(v.T)
+					}
+					args[i] = v.T
+					found = true
+				}
+			}
+			if !found {
+				fail("no field %s in %s", n, x.Type)
+			}
+		}
+		if len(args) == 0 {
+			return SVal{T: "mk_" + si.Sort, Typ: t, Sort: si.Sort}
+		}
+		return SVal{T: app("mk_"+si.Sort, args...), Typ: t, Sort: si.Sort}
 	}
 	fail("cannot evaluate specification expression %s", e)
 	return SVal{}
@@ -433,6 +466,9 @@ func (env *Env) index(v SVal, i SVal) SVal {
 	if v.Typ == nil {
 		// ghost array (e.g. $seen)
 		if strings.HasPrefix(v.Sort, "(Array ") {
+			if v.Elem != nil && !strings.HasSuffix(v.Sort, " Bool)") {
+				return env.sv(sel(v.T, i.T), v.Elem)
+			}
 			return SVal{T: sel(v.T, i.T), Typ: tBool, Sort: "Bool"}
 		}
 		fail("index of ghost value of sort %s", v.Sort)
@@ -633,6 +669,65 @@ func (env *Env) call(x *ECall) SVal {
 			return b(app(">=", app("rid", app("iptr", v.T)), u.alloc0))
 		}
 		fail("fresh of %s", v.Sort)
+	case "elemAddr":
+		xs := env.value(env.eval(x.Args[0]))
+		i := env.value(env.eval(x.Args[1]))
+		if xs.Sort != "Slice" {
+			fail("elemAddr of non-slice")
+		}
+		return SVal{T: app("saddr", xs.T, i.T), Sort: "Ref"}
+	case "tlen":
+		return SVal{T: env.cur.heap(traceLen, "Int"), Typ: tInt, Sort: "Int"}
+	case "tkind":
+		i := env.value(env.eval(x.Args[0]))
+		return SVal{T: sel(env.cur.heap(traceKind, traceSorts[traceKind]), i.T), Typ: tInt, Sort: "Int"}
+	case "targ0", "targ1":
+		i := env.value(env.eval(x.Args[0]))
+		h := traceArg0
+		if x.Fn == "targ1" {
+			h = traceArg1
+		}
+		return SVal{T: sel(env.cur.heap(h, traceSorts[h]), i.T), Sort: "Ref"}
+	case "terr":
+		i := env.value(env.eval(x.Args[0]))
+		return SVal{T: sel(env.cur.heap(traceErr, traceSorts[traceErr]), i.T), Typ: tBool, Sort: "Bool"}
+	case "kind":
+		// kind("Name"): the event kind of a traced callback of the function under verification
+		sname, ok := x.Args[0].(*EStr)
+		if !ok || env.a.top.fc == nil {
+			fail("kind(\"Name\")")
+		}
+		k := callbackKind(env.a.top.fc, sname.V)
+		if k == 0 {
+			fail("unknown callback %s", sname.V)
+		}
+		return SVal{T: intLit(int64(k)), Typ: tInt, Sort: "Int"}
+	case "rank":
+		if env.a.top.fc == nil {
+			fail("rank() outside a function with traced callbacks")
+		}
+		k := env.value(env.eval(x.Args[0]))
+		return SVal{T: rankTerm(env.a.top.fc, k.T), Typ: tInt, Sort: "Int"}
+	case "dom", "vals":
+		m := env.value(env.eval(x.Args[0]))
+		mt, ok := types.Unalias(m.Typ).Underlying().(*types.Map)
+		if !ok {
+			fail("%s of non-map", x.Fn)
+		}
+		ks := d.SortOf(mt.Key())
+		if x.Fn == "dom" {
+			t := ite(eq(m.T, "nil"), fmt.Sprintf("((as const (Array %s Bool)) false)", ks), env.a.mapDom(env.cur, mt, m.T))
+			return SVal{T: t, Sort: "(Array " + ks + " Bool)", Elem: mt.Key()}
+		}
+		return SVal{T: env.a.mapVal(env.cur, mt, m.T), Sort: "(Array " + ks + " " + d.SortOf(mt.Elem()) + ")", Elem: mt.Elem()}
+	case "upd":
+		arr := env.value(env.eval(x.Args[0]))
+		k := env.value(env.eval(x.Args[1]))
+		v := env.value(env.eval(x.Args[2]))
+		if strings.HasSuffix(arr.Sort, " Real)") && v.Sort == "Int" {
+			v.T = toReal(v.T)
+		}
+		return SVal{T: store(arr.T, k.T, v.T), Sort: arr.Sort, Elem: arr.Elem}
 	case "ite":
 		c := env.eval(x.Args[0])
 		p, q := env.value(env.eval(x.Args[1])), env.value(env.eval(x.Args[2]))
